@@ -686,7 +686,7 @@ func (in *interp) convScalar(x *Sym, kd types.BasicKind) value {
 //   - to int8/int16/uint8/uint16: CVTTSD2SL then truncation;
 //   - to uint32: CVTTSD2SQ then truncation;
 //   - to uint64/uint/uintptr: if x < 2^63 then CVTTSD2SQ(x) else
-//     CVTTSD2SQ(x - 2^63) ^ 0x8000000000000000.
+//     CVTTSD2SQ(x - 2^63) | 0x8000000000000000.
 //
 // The model is compared with the native build in the engine self-test.
 func (in *interp) floatToInt(f *Term, ws int, kd types.BasicKind) *Term {
@@ -752,7 +752,7 @@ func (in *interp) floatToInt(f *Term, ws int, kd types.BasicKind) *Term {
 		}
 		small := tp.fpCmp(OpFPLt, f, two63)
 		a := cvt(f, 64)
-		b := tp.bvBin(OpBVXor, cvt(tp.fpBin(OpFPSub, f, two63), 64), tp.BV(1<<63, 64))
+		b := tp.bvBin(OpBVOr, cvt(tp.fpBin(OpFPSub, f, two63), 64), tp.BV(1<<63, 64))
 		return tp.Ite(small, a, b)
 	}
 	panic("floatToInt kind")
